@@ -393,7 +393,7 @@ class CustomState(BaseState):
                 )
             self.state = new_state
             if operation.renormalize:
-                self.state = self.state / jnp.linalg.norm(self.state)
+                self.state = self.state / jnp.trace(self.state)
 
         C = Config()
         if C.contractions:
